@@ -423,20 +423,29 @@ func c02Batch(p *load.Program, r *oblig.Report) {
 		v := clean(an.ShapeCanon(s.Val))
 		// every path through the conn != nil region performs the store (a disjunctive guard leaves no dominating condition)
 		uncond := false
-		for d, child := s.Block().Idom(), s.Block(); d != nil; d, child = d.Idom(), d {
-			_, ci := an.IfCond(d)
-			if ci == nil || !an.IsNilConst(ci.Y) || clean(an.Shape(ci.X)) != "batch.conn" {
-				continue
+		// the store may sit in a helper that did not exist at review time: also walk up from its call site
+		at := []ssa.Instruction{s}
+		if an.IsNew(s.Parent()) {
+			for _, site := range an.SitesOf(s.Parent()) {
+				at = append(at, site.(ssa.Instruction))
 			}
-			idx := 0
-			if (ci.Op == token.EQL) != ci.Neg {
-				idx = 1
+		}
+		for _, ins0 := range at {
+			for d, child := ins0.Block().Idom(), ins0.Block(); d != nil; d, child = d.Idom(), d {
+				_, ci := an.IfCond(d)
+				if ci == nil || !an.IsNilConst(ci.Y) || clean(an.Shape(ci.X)) != "batch.conn" {
+					continue
+				}
+				idx := 0
+				if (ci.Op == token.EQL) != ci.Neg {
+					idx = 1
+				}
+				if !edgeControls(d, idx, child) {
+					continue
+				}
+				ok2, _ := an.MustPass(cl, an.Point{B: d.Succs[idx], Idx: -1}, func(i ssa.Instruction) bool { return i == ssa.Instruction(s) }, nil)
+				uncond = ok2
 			}
-			if !edgeControls(d, idx, child) {
-				continue
-			}
-			ok2, _ := an.MustPass(cl, an.Point{B: d.Succs[idx], Idx: -1}, func(i ssa.Instruction) bool { return i == ssa.Instruction(s) }, nil)
-			uncond = ok2
 		}
 		if !uncond {
 			g = append(g, "further conditions on some path")
